@@ -5,6 +5,7 @@ import (
 	"net"
 	"net/netip"
 	"sync"
+	"sync/atomic"
 	"syscall"
 	"time"
 
@@ -347,11 +348,11 @@ func (u *ut0311) Listen(signal chan any, done chan any, callback func([]byte)) e
 		return fmt.Errorf("failed to open UDP socket (%v)", c)
 	}
 
-	closed := false
+	var closed atomic.Bool // set by the shutdown goroutine, read by the receive loop
 
 	go func() {
 		<-signal
-		closed = true
+		closed.Store(true)
 		c.Close()
 	}()
 
@@ -363,7 +364,7 @@ func (u *ut0311) Listen(signal chan any, done chan any, callback func([]byte)) e
 
 			N, remote, err := c.ReadFromUDP(m)
 			if err != nil {
-				if closed {
+				if closed.Load() {
 					u.debugf(" ... listen socket closed", nil)
 					break
 				}
